@@ -97,7 +97,7 @@ Lemma fill_ord_spec id o oq q s s1 :
   (forall id0, id0 <> id -> sell_orders s1 !! id0 = sell_orders s !! id0) /\
   match sell_orders s1 !! id with
   | None => U q = U oq
-  | Some o' => order_units o' = U oq - U q /\ 0 < order_units o' /\ order_ok o' /\ order_sim o o' /\
+  | Some o' => order_units o' = U oq - U q /\ 0 < order_units o' /\ order_ok o' /\ qty_ok o' /\ order_sim o o' /\
                so_seller o' = so_seller o /\ so_disable_auto_retire o' = so_disable_auto_retire o /\
                so_expiration o' = so_expiration o /\ so_maker o' = so_maker o
   end.
@@ -114,7 +114,7 @@ Proof.
   - lstep H as nq Hnq. lstep H as m Hm. apply orm_update_ok in Hm. destruct Hm as [-> Hsome].
     inversion H; subst s1; clear H.
     destruct (sub_units oq q nq Hoq Hq Hnq) as (_ & _ & HUn & Hnok). specialize (Hnok ltac:(lia)).
-    destruct (reparse_units nq Hnok ltac:(lia)) as (d' & Hdp & Hd'ok & HUd').
+    destruct (reparse_units nq Hnok ltac:(lia)) as (d' & Hdp & Hd'ok & HUd' & Hd'e).
     set (o' := {| so_seller := so_seller o; so_batch_key := so_batch_key o; so_quantity := to_string nq;
                   so_market_id := so_market_id o; so_ask_amount := so_ask_amount o;
                   so_disable_auto_retire := so_disable_auto_retire o; so_expiration := so_expiration o;
@@ -130,6 +130,7 @@ Proof.
       destruct (decide _); lia.
     + intros id0 Hne. apply lookup_insert_ne. congruence.
     + rewrite lookup_insert. split; [exact Hou'|]. split; [lia|]. split; [exact Hoo|].
+      split; [exists d'; split; [exact Hdp | exact Hd'e]|].
       split; [unfold order_sim; tauto | tauto].
 Qed.
 
@@ -319,7 +320,7 @@ Proof.
   assert (HD9 : batches s' = batches sC /\ classes s' = classes sC /\ credit_types s' = credit_types sC).
   { unfold bank_only in HD1. rewrite HD1. cbn. tauto. }
   destruct HD9 as (D9 & D10 & D11).
-  split; [|split].
+  split; [|split; [|split]].
   - eapply Inv_core_core_eq; [apply bank_only_core_eq; exact HD1|]. apply Inv_core_split. tauto.
   - eapply mframe_trans; [exact HmfA|]. eapply mframe_trans; [exact HmfB|]. eapply mframe_trans; [exact HmfC|].
     apply mframe_bank; assumption.
@@ -333,6 +334,9 @@ Proof.
       * rewrite H0 in HAid. exists id, o. split; [exact Ho | apply HAid].
       * rewrite (HAoth id0 Hne) in H0. exists id0, o0. split; [exact H0 | unfold order_sim; tauto].
     + exact Hio.
+  - apply Inv_qty_transfer. intros id0 o0 H0. rewrite D3, HsoC in H0. destruct (decide (id0 = id)) as [->|Hne].
+    + left. rewrite H0 in HAid. apply HAid.
+    + right. rewrite (HAoth id0 Hne) in H0. exists id0, o0. tauto.
 Qed.
 
 Lemma buy_one_step e buyer s r s' :
